@@ -31,7 +31,7 @@ FORMS = ["path", "gz", "string", "list", "gen", "iter1", "dataiter", "db"]
 
 def budget(tier):
     if tier == "quick":
-        return {"runs": 2400, "wall": 50, "chunk": 8}
+        return {"runs": 2400, "wall": 120, "chunk": 8}
     return {"runs": 70000, "wall": 1500, "chunk": 8}
 
 
